@@ -305,6 +305,11 @@ fn read<R: Read>(
 
     for diagnostic in diagnostics {
         if opts.luacheck {
+            // Allowed diagnostics are not reported, same as in the other output modes
+            if diagnostic.severity == Severity::Allow {
+                continue;
+            }
+
             // Existing Luacheck consumers presumably use --formatter plain
             let primary_label = &diagnostic.diagnostic.primary_label;
             let end = files.location(source_id, primary_label.range.1).unwrap();
